@@ -200,6 +200,39 @@ Section Sampled.
       rewrite seq_nth by exact Hk. cbn [option_map]. reflexivity.
     - unfold c, position_at. rewrite inject_Z_plus. cbn [plus]. ring.
   Qed.
+
+  (* started by position: refused exactly before the offset; otherwise the axis begins AT the position and steps by
+     the interval - started on sample i it is the axis started by index i *)
+  Theorem sampled_axis_at_spec count p :
+    (p < off -> sampled_axis_at off itv count p = None) /\
+    (off <= p -> exists l, sampled_axis_at off itv count p = Some l /\ length l = count /\
+       forall k, (k < count)%nat -> exists v, nth_error l k = Some v /\ v == p + inject_Z (Z.of_nat k) * itv).
+  Proof.
+    unfold sampled_axis_at. split.
+    - intros H. apply Qltb_true in H. rewrite H. reflexivity.
+    - intros H. apply Qltb_false in H. rewrite H. eexists. split; [reflexivity|]. split.
+      + rewrite map_length, seq_length. reflexivity.
+      + intros k Hk. eexists. split.
+        * rewrite nth_error_map. rewrite (nth_error_nth' _ 0%nat) by (rewrite seq_length; exact Hk).
+          rewrite seq_nth by exact Hk. cbn [option_map]. reflexivity.
+        * cbn [plus]. ring.
+  Qed.
+  Theorem sampled_axis_at_sample count i k : (0 <= i)%Z -> (k < count)%nat ->
+    exists l v w, sampled_axis_at off itv count (c i) = Some l /\ nth_error l k = Some v /\
+                  nth_error (sampled_axis off itv count i) k = Some w /\ v == w /\ v == c (i + Z.of_nat k).
+  Proof.
+    intros Hi Hk.
+    assert (Hge : off <= c i).
+    { unfold c, position_at. rewrite <- (Qplus_0_l off) at 1. apply Qplus_le_l.
+      apply Qmult_le_0_compat; [|apply Qlt_le_weak; exact itv_pos].
+      change (inject_Z 0 <= inject_Z i). rewrite <- Zle_Qle. exact Hi. }
+    destruct (proj2 (sampled_axis_at_spec count (c i)) Hge) as (l & El & _ & Hl).
+    destruct (Hl k Hk) as (v & Ev & Hv).
+    destruct (sampled_axis_spec count i k Hk) as (w & Ew & Hw).
+    exists l, v, w. repeat split; try assumption.
+    - rewrite Hv, Hw. unfold c, position_at. rewrite inject_Z_plus. ring.
+    - rewrite Hv. unfold c, position_at. rewrite inject_Z_plus. ring.
+  Qed.
 End Sampled.
 
 (* the tolerance band is a genuine deviation from the order-based statement *)
